@@ -175,6 +175,7 @@ type repClass struct {
 	Any    bool      // any char (possibly except newline)
 	Ranges []rune    // pairs lo,hi when !Any
 	Node   *syntax.Regexp
+	Max    int // -1 = unbounded
 }
 
 func groupRep(cap *syntax.Regexp) repClass {
@@ -183,11 +184,15 @@ func groupRep(cap *syntax.Regexp) repClass {
 	}
 	r := cap.Sub[0]
 	var rc repClass
+	rc.Max = -1
 	switch r.Op {
 	case syntax.OpStar:
 		rc.Min = 0
 	case syntax.OpPlus:
 		rc.Min = 1
+	case syntax.OpRepeat:
+		rc.Min = r.Min
+		rc.Max = r.Max
 	default:
 		return repClass{}
 	}
